@@ -133,9 +133,18 @@ class Fixture:
         from maltoolbox.language import LanguageGraph, LanguageClassesFactory
         self.pristine = copy.deepcopy(spec_dict)
         self.spec = copy.deepcopy(spec_dict)
-        self.lang_graph = LanguageGraph(self.spec)
-        self.contaminated_at_load = self.spec != self.pristine
-        self.factory = LanguageClassesFactory(self.lang_graph) if build_classes else None
+        try:
+            self.lang_graph = LanguageGraph(self.spec)
+            self.contaminated_at_load = self.spec != self.pristine
+            self.factory = LanguageClassesFactory(self.lang_graph) if build_classes else None
+        except RecursionError:
+            raise
+        except Exception as e:  # noqa: BLE001
+            # every language the checks build is well-formed: being unable to load it is a finding
+            from .common import Violation
+            raise Violation(f'wellformed_language_rejected:{type(e).__name__}',
+                            f'a well-formed language could not be loaded: {str(e)[:400]}',
+                            case={'language_id': spec_dict.get('defines', {}).get('id')})
 
     def intact(self):
         return self.spec == self.pristine and self.lang_graph._lang_spec is self.spec
